@@ -49,8 +49,16 @@ def build_bend(p):
                           dtype=F64)
 
 
-def run_bmadx_correspondence(ctx, prop: str, n: int, ulps: float = 16384.0) -> list:
+def run_bmadx_correspondence(ctx, prop: str, n: int, ulps: float = 16384.0, weak: bool = False) -> list:
+    """weak=True: strengths (k1, bend angle, TDC voltage) scaled down by 10^-U(1,6): small-argument shortcuts and
+    cancellation-prone formulas live there"""
     rep, rng = ctx.report, ctx.rng
+
+    def wk(p, *keys):
+        if weak:
+            for k in keys:
+                p[k] = float(p[k]) * 10.0 ** float(-rng.uniform(1.0, 6.0))
+        return p
     drv = LeanDriver()
     pend = []
     for _ in range(n):
@@ -65,12 +73,13 @@ def run_bmadx_correspondence(ctx, prop: str, n: int, ulps: float = 16384.0) -> l
         p["num_steps"] = int(E.pick(rng, 1, 2, 5))
         if p["L"] == 0.0:
             p["L"] = 0.3
+        wk(p, "k1")
         v = one_particle(rng, big)
         pend.append(("Quadrupole(bmadx)", p, En, v,
                      drv.call("bquad", p["L"], p["k1"], p["mx"], p["my"], p["tilt"], float(p["num_steps"]), En, E.MC2, *v),
                      real_track(E.build(p), v, En)))
         # dipole
-        p = gen_bend(rng)
+        p = wk(gen_bend(rng), "angle")
         v = one_particle(rng, big)
         fa = p["fringe_at"]
         pend.append(("Dipole(bmadx)", p, En, v,
@@ -79,7 +88,7 @@ def run_bmadx_correspondence(ctx, prop: str, n: int, ulps: float = 16384.0) -> l
                               1.0 if fa in ("both", "exit") else 0.0, E.PI, En, E.MC2, *v),
                      real_track(build_bend(p), v, En)))
         # TDC
-        p = E.gen_params(rng, "TransverseDeflectingCavity")
+        p = wk(E.gen_params(rng, "TransverseDeflectingCavity"), "V")
         v = one_particle(rng, big)
         pend.append(("TransverseDeflectingCavity", p, En, v,
                      drv.call("btdc", p["L"], p["V"], p["phase"], p["freq"], p["mx"], p["my"], p["tilt"], E.MC2,
